@@ -87,6 +87,32 @@ def histories(case):
         itertools.product(ops, repeat=d) for d in range(1, depth + 1))
     evals = trans = 0
     states = set()
+    # a sample() that fails while the cohort is being loaded (transient I/O error) must not advance the round
+    if 'ops' not in case:
+      class Flaky:
+        def __init__(self, base, fail_at):
+          self._b, self._n, self._at = base, 0, fail_at
+
+        def get_clients(self, ids):
+          for j, item in enumerate(self._b.get_clients(ids)):
+            self._n += 1
+            if self._n == self._at:
+              raise IOError('transient failure while loading a client')
+            yield item
+
+        def __getattr__(self, name):
+          return getattr(self._b, name)
+      for fail_at in range(1, 2 * k + 1):
+        s = fedjax.client_samplers.UniformGetClientSampler(Flaky(fd, fail_at), k, seed)
+        got, rnd, failed = [], 0, 0
+        while len(got) < 3:
+          try:
+            got.append(observe(s.sample()))
+          except IOError:
+            failed += 1
+        require(failed == 1 and got == [T[0], T[1], T[2]], 'after a sample() that failed while loading its cohort, the retried '
+                'and following samples are not those of rounds 0, 1, 2', None, None, case=dict(case, fail_at=fail_at))
+        trans += 4
     for seq in seqs:
       if not any(o[0] == 'sample' for o in seq):
         continue
